@@ -82,6 +82,12 @@ def gen_cases(rng, tier):
                     prefix += ['I', 'C:%d:%d:%s:%d' % (rng.choice(sels), rng.choice([0, 2, 1000]), rng.choice(['1e-10', '1e-2']), rng.choice(sorts))]
                 else:
                     prefix += ['I', 'F:%d' % rng.range(1, 6), 'C:%d:5:1e-10:%d' % (rng.choice(sels), rng.choice(sorts)), 'U']   # a run that throws
+            if cls in ('SymEigsSolver', 'GenEigsSolver') and h % 5 == 4:
+                # the observed run starts from an EXACT eigenvector (all-ones, constant row sums, n = 16 so that the normalisation is exact):
+                # init() takes its "f is rounding noise" branch, which has to reset everything the previous run left behind
+                n = 16; nev = rng.range(1, 3); ncv = rng.range(nev + 3, 10); fam = 'rowsum'; gfam = 'growsum'
+                final = ['V:ones', final[1]]
+                prefix = ['I', 'C:%d:%d:%s:%d' % (rng.choice(sels), rng.choice([2, 1000]), '1e-10', rng.choice(sorts))] + prefix
             fresh = hist_line(cls, n, nev, ncv, final, fam=fam, gfam=gfam, mseed=mseed, extra='probe=1')
             reused = hist_line(cls, n, nev, ncv, prefix + final, fam=fam, gfam=gfam, mseed=mseed, extra='probe=1')
             out.append((cls, fresh, reused, 1))     # the observed outcome is the one after compute()
@@ -92,7 +98,8 @@ def run(ck, replay=None):
     rng = Rng(ck.seed)
     ck.rule = ('pairs (fresh solver, reused solver) on the same operator/arguments; the reused object first runs a prefix of 1..6 other calls '
                '(init, init(v), init(zero vector) [throws], full compute with other arguments, compute interrupted by an injected operator fault, compute with a legal but '
-               'unsupported sorting rule [throws at the very end] or selection rule [throws inside the iteration]); '
+               'unsupported sorting rule [throws at the very end] or selection rule [throws inside the iteration]); a fifth of the standard-solver cases observe a run '
+               'started from an exact eigenvector (all-ones vector, constant row sums) after an earlier full run; '
                'all 11 classes; outcome compared bit for bit; operator probed before/after; non-trivial = prefix contains a compute or a throwing call')
     st = regen()
     g = st.get('GlueGen.v', {'ok': False, 'error': 'not generated'})
